@@ -51,4 +51,10 @@ example :
     Gen.tr_GSR_mem c.memGBPerJob 5000 (-1024) = 5000 ∧ Gen.tr_GSR_mem c.memGBPerJob 500 (-1024) = 1024 ∧
     Gen.tr_GSR_vmem c.extraVmemGB false 0 c.maxMemGB c.maxVmemMB 9000 0 = (8192, 12072) := by decide
 
+/-- FAIL CLOSED (second audit pass, X2/X3): the tie theorems of this file are about the
+definition(s) TRANSLATED FROM THE TREE UNDER TEST, not about the committed default the
+extractor falls back to when the source leaves the translated subset – in that
+case this obligation breaks and `./check` reports it (besides the note). -/
+theorem translated_from_tree_under_test : Gen.tr_GSR_centi_extracted = true ∧ Gen.tr_GSR_mem_extracted = true ∧ Gen.tr_GSR_vmem_extracted = true := by decide
+
 end Props.C12
